@@ -228,10 +228,26 @@ theorem shells_telescope (x0 s : Rat) (n : Nat) :
     push_cast
     ring
 
-/-- bonded and three-body distributions integrate to one: `Σ y_i · step = 1` for non-negative averaged counts that are
-not all zero -/
-theorem unitDist_integral (d : IDef) (avg : List Rat) (hnn : ∀ h ∈ avg, 0 ≤ h) (hs : 0 < C13.sumAbs avg) (hstep : d.step ≠ 0) :
-    (unitDist d avg).sum * d.step = 1 := by
+/-- the normalisation width is the spacing of the written grid up to 1e-8 of the step -/
+theorem normStep_close (d : IDef) : absRat (normStep d - hstep d) ≤ absRat d.step / 100000000 := by
+  unfold normStep
+  split
+  · have h0 : absRat (hstep d - hstep d) = 0 := by simp [absRat]
+    rw [h0]
+    have : 0 ≤ absRat d.step := by unfold absRat; split <;> linarith
+    linarith
+  · rename_i h
+    have h' := not_lt.mp h
+    have : absRat (d.step - hstep d) = absRat (hstep d - d.step) := by
+      unfold absRat
+      split <;> split <;> linarith
+    rw [this]; exact h'
+
+/-- bonded and three-body distributions integrate to one over the grid they are written on: `Σ y_i · Δx = 1` with `Δx` the
+spacing of the written x column (`normStep d`: the histogram's spacing when the range is not a whole number of steps, the `step`
+option — equal to it within 1e-8, `normStep_close` — otherwise), for non-negative averaged counts that are not all zero -/
+theorem unitDist_integral (d : IDef) (avg : List Rat) (hnn : ∀ h ∈ avg, 0 ≤ h) (hs : 0 < C13.sumAbs avg) (hstep : normStep d ≠ 0) :
+    (unitDist d avg).sum * normStep d = 1 := by
   have habs : avg.map absRat = avg := by
     conv_rhs => rw [← List.map_id avg]
     apply List.map_congr_left
